@@ -399,7 +399,7 @@ const (
 	exAllGeneral   = "join.on() naming all dimensions of all parents"
 	exAllSpecific  = "join.on() naming some of the dimensions of equally grouped parents"
 	exTail         = "outer join.on(): a specific point without general partner that is not older than the last points of both parents in its on-group"
-	exLowMark      = "general|join(specific).on(): the general (first) parent delivers its first point of an on-group after the specific parent delivered >=2 times of it, having delivered elsewhere before"
+	exLowMark      = "general|join(specific).on(): the general (first) parent can deliver its first point of an on-group after the specific parent delivered >=2 times of it, having delivered elsewhere before"
 )
 
 func genOn(t *rapid.T, r *kit.Rec) OnCase {
@@ -469,13 +469,10 @@ func genOn(t *rapid.T, r *kit.Rec) OnCase {
 		lens[p] = len(c.Parents[p])
 	}
 	c.Schedules = genSchedules(t, lens)
-	if excluding("lowmark") {
-		msgs := c.messages()
-		for i, sch := range c.Schedules {
-			if c.lowMarkTrigger(msgs, sch) >= 0 {
-				r.Exclude(exLowMark)
-				c.Schedules[i] = generalFirstInGroupEv(c.events(msgs), sch)
-			}
+	if gp, _, ok := c.twoParentGS(); ok && gp == 0 && excluding("lowmark") {
+		n := repairLowMark(func() [][]onEv { return c.events(c.messages()) }, c.Schedules, c.appendClosingGeneral)
+		for i := 0; i < n; i++ {
+			r.Exclude(exLowMark)
 		}
 	}
 	return c
@@ -589,70 +586,138 @@ func (c OnCase) lowMarkTrigger(msgs [][]onMsg, sched []int) int {
 	return lowMarkTriggerEv(c.events(msgs), sched)
 }
 
-// lowMarkTriggerEv: parent 0 is the general parent, parent 1 the specific one.
+// lowMarkTriggerEv: parent 0 is the general parent, parent 1 the specific one. It returns the first
+// position of the schedule whose specific message can arrive while the general parent has delivered
+// something but nothing of the message's on-group g, after an older (rounded) time of g from the
+// specific parent, the general parent still having a point of g to deliver; -1 if there is none.
+//
+// "Can arrive": the gate of runGated waits until the join's reader goroutine of the fed parent has
+// taken the message off the edge, not until the node has handled it, so the last message of a run of
+// one parent may be handled after any number of messages of the following run of the other parent.
+// The number L of general messages handled when the specific message at position i is handled
+// therefore lies between a-1 and a+r (a: general messages scheduled before i, r: general messages
+// scheduled directly after i); the class is present if some L >= 1 in that range leaves g unreported.
 func lowMarkTriggerEv(ev [][]onEv, sched []int) int {
 	const gp = 0
-	inGeneral := map[string]bool{}
-	for _, m := range ev[gp] {
-		inGeneral[m.on] = true
+	firstIdx := map[string]int{} // position of the first message of an on-group in the general parent's sequence
+	for j, m := range ev[gp] {
+		if _, ok := firstIdx[m.on]; !ok {
+			firstIdx[m.on] = j
+		}
 	}
-	next := make([]int, 2)
-	reported := map[string]bool{}
+	a, ns := 0, 0
 	firstS := map[string]int64{}
 	for i, p := range sched {
-		m := ev[p][next[p]]
-		next[p]++
 		if p == gp {
-			reported[m.on] = true
+			a++
 			continue
 		}
-		if ft, seen := firstS[m.on]; seen {
-			if next[gp] > 0 && !reported[m.on] && inGeneral[m.on] && ft < m.t {
-				return i
-			}
-		} else {
+		m := ev[1][ns]
+		ns++
+		ft, seen := firstS[m.on]
+		if !seen {
 			firstS[m.on] = m.t
+			continue
+		}
+		f, has := firstIdx[m.on]
+		if !has || !(ft < m.t) {
+			continue
+		}
+		lmin := a - 1
+		if lmin < 1 {
+			lmin = 1
+		}
+		lmax := a
+		for j := i + 1; j < len(sched) && sched[j] == gp; j++ {
+			lmax++
+		}
+		if lmax >= lmin && f >= lmin {
+			return i
 		}
 	}
 	return -1
 }
 
-// generalFirstInGroupEv repairs a schedule: wherever lowMarkTriggerEv fires, the general parent's
-// messages up to its first one of that on-group are delivered first (and skipped later).
-func generalFirstInGroupEv(ev [][]onEv, sched []int) []int {
+// repairLowMark makes every schedule free of the class of lowMarkTriggerEv: wherever it fires, the
+// general parent's messages up to its first one of that on-group and one more (which guarantees that
+// the former has been handled) are delivered first and skipped later; when the general parent has
+// no further message, appendGeneral adds one to the case (a general point later than everything,
+// without partner) and every schedule delivers it last. It returns the number of repaired schedules.
+func repairLowMark(events func() [][]onEv, scheds [][]int, appendGeneral func()) int {
 	const gp = 0
-	for {
-		at := lowMarkTriggerEv(ev, sched)
-		if at < 0 {
-			return sched
-		}
-		// the message at position at
-		next := make([]int, 2)
-		for _, p := range sched[:at] {
-			next[p]++
-		}
-		on := ev[sched[at]][next[sched[at]]].on
-		k := 0 // general messages to deliver in advance
-		for j := next[gp]; j < len(ev[gp]); j++ {
-			k++
-			if ev[gp][j].on == on {
+	repaired := 0
+	ev := events()
+	for si := range scheds {
+		first := true
+		for {
+			sched := scheds[si]
+			at := lowMarkTriggerEv(ev, sched)
+			if at < 0 {
 				break
 			}
-		}
-		out := append([]int(nil), sched[:at]...)
-		for j := 0; j < k; j++ {
-			out = append(out, gp)
-		}
-		owed := k
-		for _, p := range sched[at:] {
-			if p == gp && owed > 0 {
-				owed--
-				continue
+			if first {
+				repaired++
+				first = false
 			}
-			out = append(out, p)
+			a, ns := 0, 0
+			for _, p := range sched[:at] {
+				if p == gp {
+					a++
+				} else {
+					ns++
+				}
+			}
+			on := ev[1][ns].on
+			f := 0
+			for j, m := range ev[gp] {
+				if m.on == on {
+					f = j
+					break
+				}
+			}
+			if len(ev[gp]) < f+2 {
+				appendGeneral()
+				ev = events()
+				for k := range scheds {
+					scheds[k] = append(scheds[k], gp)
+				}
+				sched = scheds[si]
+			}
+			k := f + 2 - a // general messages to deliver in advance
+			out := append([]int(nil), sched[:at]...)
+			for j := 0; j < k; j++ {
+				out = append(out, gp)
+			}
+			owed := k
+			for _, p := range sched[at:] {
+				if p == gp && owed > 0 {
+					owed--
+					continue
+				}
+				out = append(out, p)
+			}
+			scheds[si] = out
 		}
-		sched = out
 	}
+	return repaired
+}
+
+// appendClosingGeneral appends to the general parent (parent 0) a point of its first on-group at a
+// time later than everything else (it has no partner and produces no output).
+func (c *OnCase) appendClosingGeneral() {
+	last := make([]int64, len(c.Parents))
+	max := int64(0)
+	for p := range c.Parents {
+		for _, m := range c.Parents[p] {
+			last[p] += m.Gap
+		}
+		if last[p] > max {
+			max = last[p]
+		}
+	}
+	T := max + c.Tolerance + 1
+	d := c.Parents[0][0].D
+	c.Parents[0] = append(c.Parents[0], OM{D: d, Gap: T - last[0], V: 3})
 }
 
 func runOn(c OnCase, cc *kit.Case) {
@@ -745,6 +810,12 @@ func runOn(c OnCase, cc *kit.Case) {
 		}
 		if !gated {
 			cc.Label("gate-timeout")
+			if gp, _, ok := c.twoParentGS(); ok && gp == 0 && excluding("lowmark") {
+				// the arrival order was not controlled, so the excluded schedule class of the known
+				// finding (general parent late in an on-group) cannot be ruled out for this run
+				cc.Label("gate-timeout:run-not-compared")
+				continue
+			}
 		}
 		var got []string
 		for _, o := range obs {
@@ -780,7 +851,7 @@ func runOn(c OnCase, cc *kit.Case) {
 					cl = append(cl, "first-parent-late-in-group")
 				}
 				if len(cl) > 0 {
-					class = strings.Join(cl, "+")
+					class = cl[0] // both classes are known findings; the first names the case
 				}
 			}
 			sig := fmt.Sprintf("joinon/%s/multiset/%s/%s", class, jt, dir)
